@@ -32,6 +32,22 @@ func attach(w io.Writer, r io.Reader) *attachment {
 type tuple [2]interface{}
 
 func encodePayload(tt []tuple) []byte {
+	// Arguments are byte strings, not necessarily valid UTF-8: as JSON
+	// strings all their invalid bytes would turn into the same replacement
+	// character, so encode them as bytes.
+	tt = append([]tuple(nil), tt...)
+	for i, t := range tt {
+		switch v := t[1].(type) {
+		case string:
+			tt[i][1] = []byte(v)
+		case []string:
+			bb := make([][]byte, len(v))
+			for j, s := range v {
+				bb[j] = []byte(s)
+			}
+			tt[i][1] = bb
+		}
+	}
 	p, err := json.Marshal(tt)
 	if err != nil {
 		panic(err)
